@@ -29,7 +29,7 @@ func init() {
 }
 
 func fullOpts() genOpts {
-	return genOpts{invalidUTF8: true, redactKinds: true, panics: true, safeKinds: true, addrs: true, maxDepth: 3}
+	return genOpts{invalidUTF8: true, redactKinds: true, panics: true, safeKinds: true, addrs: true, starKinds: true, maxDepth: 3}
 }
 
 // ---- the two oracles ------------------------------------------------------------------
